@@ -58,5 +58,35 @@ def headline (i : Inp α) (x : Var → α) : α := minOver (sumPercent i x) i.nm
 def splitCrops (produced eaten : α) : α × α :=
   if produced ≤ eaten then (produced, eaten - produced) else (eaten, 0)
 
+/-! ### feed and biofuel drawn from each resource (`…_feed`, `…_biofuels` of the interpreter) -/
+
+/-- an allocation (billion kcals; seaweed: tonnes times `ratio = seaweedKcals`) in percent of the
+    monthly need -/
+def pctOfNeed (i : Inp α) (ratio v : α) : α := v * ratio / i.billionKcalsNeeded * 100.0
+
+/-- the ten reported numbers of month `m`: feed drawn from stored food, outdoor crops, seaweed,
+    cellulosic sugar, SCP, then biofuel in the same order; 0 for a resource that is switched off -/
+def nonhumanMonth (i : Inp α) (x : Var → α) (m : Nat) : List α :=
+  [ pctOfNeed i 1 (valIf x i.addStored .sfFeed m),
+    pctOfNeed i 1 (valIf x i.addOutdoor .cropFeed m),
+    pctOfNeed i i.seaweedKcals (valIf x i.addSeaweed .swFeed m),
+    pctOfNeed i 1 (valIf x i.addCs .csFeed m),
+    pctOfNeed i 1 (valIf x i.addScp .scpFeed m),
+    pctOfNeed i 1 (valIf x i.addStored .sfBiofuel m),
+    pctOfNeed i 1 (valIf x i.addOutdoor .cropBiofuel m),
+    pctOfNeed i i.seaweedKcals (valIf x i.addSeaweed .swBiofuel m),
+    pctOfNeed i 1 (valIf x i.addCs .csBiofuel m),
+    pctOfNeed i 1 (valIf x i.addScp .scpBiofuel m) ]
+
+/-- one row per month of the horizon -/
+def nonhumanSeries (i : Inp α) (x : Var → α) : List (List α) :=
+  (List.range i.nmonths).map (nonhumanMonth i x)
+
+/-- the same ten numbers with the sugar and SCP entries exchanged (feed: 3 ↔ 4, biofuel: 8 ↔ 9):
+    what a call site with swapped arguments would report -/
+def swapSugarScp : List α → List α
+  | [a, b, c, d, e, f, g, h, j, k] => [a, b, c, e, d, f, g, h, k, j]
+  | l => l
+
 end
 end Allfed.Report
